@@ -244,7 +244,10 @@ theorem addConsolidate_spec {f : Forest} (w : f.W) (node : Nat) (prev next : Opt
   have trivialCase : (f, false).1.W ∧ ((f, false).2 = false → (f, false).1 = f) ∧
       Frame f (f, false).1 [node] ∧ ((f, false).2 = true → (f, false).1.isLive node = false) :=
     ⟨w, fun _ => rfl, Frame.refl _ _, fun h => by cases h⟩
-  unfold addConsolidate
+  rw [addConsolidate_eq_old]
+  generalize f.selfPrev node prev = prev
+  generalize f.selfNext node next = next
+  unfold addConsolidateOld
   cases hc : f.consolidation with
   | false => exact trivialCase
   | true =>
